@@ -332,11 +332,11 @@ def q_obs(st):
     return some((NAMES[st['name']], st['hard'], st['training'], st['T'], c30(st['theta'])))
 
 
-def trace_expr(r, keep):
+def trace_expr(r, keep, fixc):
     k = 'KComb' if r['spec']['kind'] == 'comb' else 'KMps'
     # closure family: the prefix is itself a case of the family, only the last transition is compared
     skip = max(0, len(r['steps']) - 1) if r['spec'].get('fam') == 'closure' else 0
-    return 'run_trace %s true %s %s %s %s %s %s %s' % (coq(keep), k, coq(q_tab(r['tab'])), coq(TOL), coq(q_sampler(r['init'])),
+    return 'run_trace %s %s %s %s %s %s %s %s %s' % (coq(keep), coq(fixc), k, coq(q_tab(r['tab'])), coq(TOL), coq(q_sampler(r['init'])),
                                                        coq([q_op(m) for m in r['mops']]), coq(Nat(skip)), coq([q_obs(s) for s in r['steps'][skip:]]))
 
 
@@ -383,11 +383,18 @@ T0, T1 = 1.0, 0.1
 def alphabet(kind, thorough):
     ts = (None, T1, T0) if thorough else (None, T1)
     ops = []
+    tf = (None, True, False)
     if kind == 'comb':
-        ops += [('upd', t, h, None, None) for t in ts for h in (None, True, False)]
+        ops += [('upd', t, h, None, None) for t in ts for h in tf]
         ops += [('upd', None, None, True, None), ('upd', None, None, None, True)]
+    elif kind == 'chan' and not thorough:
+        # quick tier: the per-channel selector shares update_softmax_options with the per-layer one (full alphabet
+        # there); here every single-argument update and every fully specified one
+        ops += [('upd', T1, None, None, None)] + [('upd', None, b, None, None) for b in (True, False)]
+        ops += [('upd', None, None, b, None) for b in (True, False)] + [('upd', None, None, None, b) for b in (True, False)]
+        ops += [('upd', T1, h, g, d) for h in (True, False) for g in (True, False) for d in (True, False)]
     else:
-        ops += [('upd', t, h, g, d) for t in ts for h in (None, True, False) for g in (None, True, False) for d in (None, True, False)]
+        ops += [('upd', t, h, g, d) for t in ts for h in tf for g in tf for d in tf]
     ops += [('train',), ('eval',), ('fwd', 0), ('opt', A0[kind]), ('opt', A1[kind])]
     return ops
 
@@ -653,6 +660,18 @@ def probe_keep():
     return k1 and k2
 
 
+def probe_comb_eval():
+    """does the SuperNetCombiner evaluate the arg-max one-hot in eval mode with soft selection?"""
+    torch = _torch()
+    from plinio.methods.supernet.nn.combiner import SuperNetCombiner
+    c = SuperNetCombiner(3, False, False)
+    with torch.no_grad():
+        c.alpha.copy_(torch.tensor([0.25, 1.0, -0.5]))
+    c.eval()
+    c.sample_alpha()
+    return c.theta_alpha.tolist() == [0.0, 1.0, 0.0]
+
+
 def _init_worker():
     _torch()
 
@@ -662,6 +681,8 @@ def run(ctx):
     built = ctx.build()
     keep = probe_keep()
     ctx.extra['update_keeps_sampler_when_args_are_None'] = keep
+    fixc = probe_comb_eval()
+    ctx.extra['combiner_eval_mode_is_argmax_onehot'] = fixc
     ctx.rule = ('(a) one forward per (temperature of {0.05..20}) x (hard, gumbel, disable_sampling, train/eval) on per-layer vectors (length 1..8), per-channel matrices (up to 8x16) and '
                 'SuperNet combiners (length 1..8, inside a real SuperNet) with pairwise coefficient gaps >= 0.05; (b) breadth-first closure of the abstract state '
                 '(sampler fn, hard, training, temperature, coefficients, content of theta) under the whole op alphabet (update_softmax_options with every None/True/False combination '
@@ -715,7 +736,7 @@ def run(ctx):
     if built:
         try:
             todo = [r for r in results if r.get('init') is not None]
-            exprs = [trace_expr(r, keep) for r in todo]
+            exprs = [trace_expr(r, keep, fixc) for r in todo]
             vals = ctx.coq_eval_sharded('traces', ['Plinio.Model.Sampler'], '', exprs, shard=250)
             for r, (bad, sel) in zip(todo, vals):
                 ctx.corr += 1 if r['spec'].get('fam') == 'closure' and r['steps'] else len(r['steps'])
@@ -765,7 +786,8 @@ def run(ctx):
     ctx.extra['model_impl_mismatches'] = len(mism)
     ctx.assumptions += ['exp enters the theorems as any positive strictly increasing g; the correspondence instantiates g with a finite table of float64 exponentials of the implementation\'s own float32 arguments',
                         'float32 softmax / gumbel_softmax(hard) residual (y_hard - y_soft + y_soft) compared within 2^-20; torch.argmax = first maximum; Gumbel noise regenerated with -empty_like().exponential_().log() after re-seeding',
-                        'open findings (KNOWN_FINDINGS.json): disable_sampling=True leaves stale coefficients (guard `disabled = false` in the theorems)']
+                        'open findings (KNOWN_FINDINGS.json): disable_sampling=True leaves stale coefficients (guard `disabled = false` in the theorems); SuperNetCombiner in eval mode with soft selection evaluates a mixture (guard `covered`)',
+                        'two model switches are set by probing the implementation once per run (both variants are covered by the theorems): keep_opts (does update_softmax_options keep the sampler when gumbel/disable_sampling are None) and comb_eval_argmax']
 
     if not ctx.violations:
         if not built:
